@@ -3,7 +3,9 @@ on every run and every function is lowered to Python `ast`, which the common eng
 
 Modelled: cdef/def functions and methods of cdef classes; `cdef T x [= e]` declarations (sort taken from the contract file's C type table);
 C integer locals as mathematical integers (range assumptions are stated in the contracts); `vector[T]` as a sequence, `unordered_map` as a finite
-map, `pair` as a 2-tuple with fields first/second, `ptr[0]` as the pointee value, NULL as None; `//` and `%` with Python semantics (Cython's
+map, `pair` as a 2-tuple with fields first/second, `ptr[0]` as the pointee value and `ptr.at/size/push_back` as operations on the pointee vector,
+`new T()` as an allocation (model in the contract file), NULL as None; `char*` into a bytes object as (sequence, offset) with pointer arithmetic on the
+offset and every read an in-bounds obligation; typed memoryviews as sequences; `with nogil` as its body; `//` and `%` with Python semantics (Cython's
 default cdivision=False).
 Dropped: pointer identity and ownership (new/del: a pointee is an immutable value), `nogil`, `boundscheck(False)` (every index is an obligation),
 memoryview layout, exceptions other than `raise X(...)` ending a path.
@@ -64,7 +66,12 @@ class _Lower:
     def type_name(self, bt):
         t = type(bt).__name__
         if t == "CSimpleBaseTypeNode":
-            return bt.name
+            # signedness and length are part of the type: `unsigned char` is not `char`, `long long` is not `int`
+            pre = {0: "unsigned ", 2: "signed "}.get(getattr(bt, "signed", 1), "") if getattr(bt, "is_basic_c_type", False) else ""
+            pre += {-1: "short ", 1: "long ", 2: "long long "}.get(getattr(bt, "longness", 0), "") if getattr(bt, "is_basic_c_type", False) else ""
+            return (pre + bt.name) if bt.name is not None else None
+        if t == "MemoryViewSliceTypeNode":
+            return self.type_name(bt.base_type_node) + "[%s]" % ",".join(":" for _ in bt.axes)
         if t == "TemplatedTypeNode":
             return self.type_name(bt.base_type_node) + "[...]"
         if t == "CNestedBaseTypeNode":
@@ -184,6 +191,11 @@ class _Lower:
             return L(ast.Attribute(value=self.expr(n.obj), attr=n.attribute, ctx=ctx))
         if t == "IndexNode":
             return L(ast.Subscript(value=self.expr(n.base), slice=self.expr(n.index), ctx=ctx))
+        if t == "SimpleCallNode" and type(n.function).__name__ == "NewExprNode":
+            # `new T(args)`: one call __new__("T", args)
+            inner = self.expr(n.function)
+            inner.args += [self.expr(a) for a in n.args]
+            return inner
         if t == "SimpleCallNode":
             return L(ast.Call(func=self.expr(n.function), args=[self.expr(a) for a in n.args], keywords=[]))
         if t == "GeneralCallNode":
@@ -301,11 +313,15 @@ class CySource:
         return hashlib.sha256(ast.dump(n).encode()).hexdigest()[:12]
 
 
-class VIter:
-    """result of unordered_map.find(k) / .end()"""
+class VIter(VModel):
+    """result of unordered_map.find(k) / .end(); `container is None`: a declared, not yet assigned iterator"""
 
     def __init__(self, container, key=None, end=False):
         self.container, self.key, self.end = container, key, end
+
+    def havoc(self, eng, st, name):
+        # an iterator local assigned in a loop body is only ever used after that assignment within the same iteration
+        return VIter(None)
 
 
 class VDeref:
@@ -315,7 +331,44 @@ class VDeref:
         self.ref = ref
 
 
+class CPtr(VModel):
+    """`char*` into a bytes object: (the byte sequence, offset).  p + k / p += k move the offset, p[k] reads sequence[offset + k]; every read is an
+    in-bounds obligation (Cython's boundscheck does not apply to pointers; the terminating NUL of a bytes buffer is not modelled as readable)."""
+
+    def __init__(self, base, off):
+        self.base, self.off = base, off
+
+    def sym_getitem(self, eng, st, key):
+        k = self.off + to_z3(key)
+        eng.oblige(st, "noexc", z3.And(k >= 0, k < self.base.len), "out-of-bounds-pointer-read")
+        return from_z3(self.base.arr[k], self.base.elem)
+
+    def sym_binop(self, eng, st, op, other):
+        if isinstance(op, ast.Add):
+            return CPtr(self.base, self.off + to_z3(other))
+        if isinstance(op, ast.Sub):
+            return CPtr(self.base, self.off - to_z3(other))
+        raise Unsupported("pointer arithmetic %s" % type(op).__name__)
+
+    def havoc(self, eng, st, name):
+        return CPtr(self.base, z3.Int(fresh_name(name + ".off")))
+
+
 class CyEngine(Engine):
+    def cdecl(self):
+        d = self.__dict__.setdefault("_cdecl", {})
+        return d.setdefault(id(self.fn), {})
+
+    def assign(self, target, v, st, fresh=True):
+        if isinstance(target, ast.Name) and isinstance(v, VList) and self.cdecl().get(target.id) == "char*":
+            v = CPtr(v, z3.IntVal(0))        # `char* p = bytes_object`: pointer to its first byte
+        return super().assign(target, v, st, fresh)
+
+    def binop(self, op, a, b, st, node=None):
+        if isinstance(a, CPtr):
+            return a.sym_binop(self, st, op, b)
+        return super().binop(op, a, b, st, node)
+
     def annotation_sort(self, ann):
         name = ann.value
         s = self.reg.ctypes.get(name) if hasattr(self.reg, "ctypes") else None
@@ -324,9 +377,21 @@ class CyEngine(Engine):
         return s
 
     def stmt_AnnAssign(self, node, st):
+        self.cdecl()[node.target.id] = node.annotation.value
+        if node.value is None and node.annotation.value == "char*":
+            st.env[node.target.id] = NONE        # uninitialised pointer: any use before an assignment is an error of the engine's None handling
+            yield st, ("next",)
+            return
+        if node.annotation.value.endswith("]") and "[:" in node.annotation.value and node.annotation.value not in getattr(self.reg, "ctypes", {}):
+            # a typed memoryview: the element type decides what a stored value becomes (an `unsigned char[:]` wraps at 256), so it needs a declared sort
+            raise Unsupported("typed memoryview %s has no sort in the contract file" % node.annotation.value)
         if node.value is not None and node.annotation.value not in getattr(self.reg, "ctypes", {}):
             # a declared-and-initialised local of a C type without a sort (e.g. an iterator): its value is whatever the initialiser yields
             st.env[node.target.id] = self.eval(node.value, st)
+            yield st, ("next",)
+            return
+        if node.value is None and node.annotation.value not in getattr(self.reg, "ctypes", {}) and "iterator" in node.annotation.value:
+            st.env[node.target.id] = VIter(None)        # an uninitialised C++ iterator: assigned before its first use
             yield st, ("next",)
             return
         sort = self.annotation_sort(node.annotation)
@@ -355,12 +420,28 @@ class CyEngine(Engine):
                 return data.len
             if name == "at":
                 return super().getitem(data, args[0], st)
+        if isinstance(recv, VRef) and self.reg.is_pointee(recv.cls) and name in ("at", "size", "push_back"):
+            # ptr.method(): Cython dereferences the pointer; the pointee is a C++ vector (field `data`)
+            self.oblige(st, "noexc", recv.ref != 0, "NULL-dereference")
+            data = self.load_field(st, recv, "data")
+            if name == "size":
+                return data.len
+            if name == "at":
+                i = to_z3(args[0])
+                self.oblige(st, "noexc", z3.And(i >= 0, i < data.len), "vector.at-out-of-range")
+                return from_z3(data.arr[i], data.elem)
+            self.store_field(st, recv, "data", self.list_append(data, args[0]))
+            return NONE
+        if isinstance(recv, VList) and name == "encode" and not args:
+            self.assumptions.add("str.encode() taken as the identity on the sequence of code units: inputs are bytes or ASCII str "
+                                 "(for non-ASCII str the UTF-8 length differs from len())")
+            return recv
         return NotImplemented
 
     def compare(self, op, a, b, st):
         if isinstance(a, VIter) or isinstance(b, VIter):
             it, other = (a, b) if isinstance(a, VIter) and not a.end else (b, a)
-            if not (isinstance(other, VIter) and other.end):
+            if not (isinstance(other, VIter) and other.end) or it.container is None:
                 raise Unsupported("iterator comparison")
             present = it.container.dom[to_z3(it.key, it.container.key)]
             if isinstance(op, ast.Eq):
